@@ -260,7 +260,7 @@ static void ops_case(uint64_t idx)
 	unsigned nops = 20 + vrng_below(&r, 280);
 	bool big_values = vrng_chance(&r, 1, 3);
 	bool viol = false;
-	unsigned n_cat = 0, n_dup = 0, n_limit_fail = 0, n_iter_across_cat = 0, n_group_cross = 0;
+	unsigned n_cat = 0, n_dup = 0, n_limit_fail = 0, n_iter_across_cat = 0, n_group_cross = 0, n_adopt = 0;
 #define H(...) do { if (hw < sizeof(hist) - 100) hw += (size_t)snprintf(hist + hw, sizeof(hist) - hw, __VA_ARGS__); } while (0)
 #define VIOL(k, ...) do { char d_[1000]; snprintf(d_, sizeof(d_), __VA_ARGS__); hx_violation("C13", k, idx, "%s; history: %s", d_, hist); viol = true; } while (0)
 	for (unsigned op = 0; op < nops && !viol; ++op) {
@@ -421,7 +421,17 @@ static void ops_case(uint64_t idx)
 						if (!check_queries(&f, d, why, sizeof(why))) VIOL("index-roundtrip", "decoded Index: %s", why);
 						else if (!check_full_iteration(&f, d, why, sizeof(why))) VIOL("index-roundtrip|iteration", "decoded Index: %s", why);
 					}
-					m_free(&f);
+					// a third of the decoded indexes join the history (replacing a slot other than 0, which carries the
+					// persistent iterators): later appends/cats/dups then run on an object built by the decoder
+					if (!viol && d && flat_ok && dr == LZMA_OK && vrng_chance(&r, 1, 3)) {
+						unsigned slot;
+						if (np < 3) slot = np++;
+						else { slot = 1 + vrng_below(&r, 2); lzma_index_end(P[slot].i, &mon.a); m_free(&P[slot].m); }
+						P[slot].i = d; P[slot].m = f; d = NULL;
+						H("adopt%u ", slot);
+						++n_adopt;
+						if (f.s[0].n == 0) hx_count("decoded_empty_index_adopted", 1);
+					} else m_free(&f);
 					if (d) lzma_index_end(d, &mon.a);
 				}
 				free(buf);
@@ -439,7 +449,7 @@ static void ops_case(uint64_t idx)
 		else if (!check_full_iteration(&P[t].m, P[t].i, why, sizeof(why))) VIOL("iteration-differs", "final audit index %u: %s", t, why);
 	}
 	bool nontrivial = n_cat > 0 || n_group_cross > 0;
-	hx_count("cat_ops", n_cat); hx_count("dup_ops", n_dup); hx_count("limit_failures", n_limit_fail);
+	hx_count("cat_ops", n_cat); hx_count("dup_ops", n_dup); hx_count("decoded_indexes_adopted", n_adopt); hx_count("limit_failures", n_limit_fail);
 	hx_count("iterators_alive_across_cat", n_iter_across_cat); hx_count("group_boundary_crossings", n_group_cross);
 	hx_sample("c13 ops=%u big=%d history: %.300s", nops, big_values, hist);
 	hx_distinct(vhash(hist, strlen(hist), vhash(&idx, 8, VHASH_INIT)), nontrivial);
@@ -520,6 +530,16 @@ static void files_case(uint64_t idx)
 	k = vrng_below(&r, 10);
 	unsigned nb = k < 3 ? 1 : (k < 7 ? 2 + vrng_below(&r, 4) : 6 + vrng_below(&r, 40));
 	gen_xz_multi(&r, &g, ns, nb, vrng_chance(&r, 1, 8) ? 300000 : 20000, vrng_chance(&r, 1, 3), true);
+	// sometimes a Stream without Blocks in front of or behind the others
+	if (vrng_chance(&r, 1, 5)) {
+		uint8_t es[64]; size_t ep = 0;
+		static const lzma_check cks[] = { LZMA_CHECK_NONE, LZMA_CHECK_CRC32, LZMA_CHECK_CRC64, LZMA_CHECK_SHA256 };
+		if (lzma_easy_buffer_encode(0, cks[vrng_below(&r, 4)], NULL, NULL, 0, es, &ep, sizeof(es)) == LZMA_OK) {
+			if (vrng_chance(&r, 2, 3)) { vbuf nd = {0}; vbuf_append(&nd, es, ep); vbuf_append(&nd, g.data.p, g.data.n); vbuf_free(&g.data); g.data = nd; hx_count("files_empty_first_stream", 1); }
+			else vbuf_append(&g.data, es, ep);
+			++ns;
+		}
+	}
 	// extra trailing Stream Padding sometimes
 	if (vrng_chance(&r, 1, 4)) { unsigned pad = 4 * (1 + vrng_below(&r, 3000)); for (unsigned i = 0; i < pad; ++i) vbuf_putc(&g.data, 0); }
 	bool mutated = false; char md[120] = "";
@@ -595,6 +615,18 @@ static void files_case(uint64_t idx)
 		if (!ix) hx_violation("C13", "file-info-memlimit-raise-fails", idx, "raising the limit to lzma_memusage() after each LZMA_MEMLIMIT_ERROR ends with %s after %" PRIu64 " raises; %s", lzma_ret_name(rr), memlimit_raises, g.desc);
 		else { if (!same_index(ix, canon, why, sizeof(why))) hx_violation("C13", "file-info-memlimit-raise-changes-index", idx, "%s; %s", why, g.desc); lzma_index_end(ix, NULL); }
 		hx_count("memlimit_raises", memlimit_raises);
+		// the result is an ordinary lzma_index: it must take further Records
+		{
+			lzma_vli bc = lzma_index_block_count(canon), us = lzma_index_uncompressed_size(canon);
+			unsigned extra = 1 + vrng_below(&r, 3);
+			for (unsigned e = 0; e < extra; ++e) {
+				lzma_ret ar = lzma_index_append(canon, NULL, 100 + e, 200);
+				if (ar != LZMA_OK) { hx_violation("C13", "append-to-file-info-result-failed", idx, "lzma_index_append on the decoded index returned %s; %s", lzma_ret_name(ar), g.desc); break; }
+			}
+			if (lzma_index_block_count(canon) != bc + extra || lzma_index_uncompressed_size(canon) != us + 200 * (lzma_vli)extra)
+				hx_violation("C13", "append-to-file-info-result-wrong", idx, "after %u appends: %" PRIu64 " Blocks (was %" PRIu64 "); %s", extra, (uint64_t)lzma_index_block_count(canon), (uint64_t)bc, g.desc);
+			hx_count("file_info_results_appended", 1);
+		}
 		hx_count("files_valid", 1);
 		if (ns >= 2) hx_count("files_multi_stream", 1);
 	} else hx_count("files_rejected", 1);
